@@ -196,13 +196,22 @@ func rcGen(r *rng.R, id int, o rcOpts) *rcCase {
 	if withKA {
 		pool = append(pool, shape{p + "KA", p + "KB"}, shape{"[]" + p + "KA", "[]" + p + "KB"}, shape{"*" + p + "KA", "*" + p + "KB"}, shape{"map[string]" + p + "KA", "map[string]" + p + "KB"})
 	}
+	var forced []string
+	// named types over a map of interface{} values with an extend function on the UNDERLYING types (useUnderlyingTypeMethods):
+	// every table is keyed by the printed type, and the literal `interface{}` is part of it
+	if r.Chance(10) {
+		ty.WriteString(fmt.Sprintf("type %[1]sAttrs map[string]interface{}\ntype %[1]sAttrsT map[string]interface{}\n", p))
+		cu.WriteString(fmt.Sprintf("func %sConvAttrs(m map[string]interface{}) map[string]interface{} { return m }\n\n", p))
+		extend = append(extend, p+"ConvAttrs")
+		pool = append(pool, shape{p + "Attrs", p + "AttrsT"}, shape{p + "Attrs", p + "AttrsT"}, shape{"[]" + p + "Attrs", "[]" + p + "AttrsT"})
+		forced = append(forced, "useUnderlyingTypeMethods")
+	}
 	if r.Chance(8) {
 		pool = append(pool, shape{"int", "int64"}, shape{"[]int", "[2]int"}, shape{"[2]" + inA, "[2]" + inB}, shape{"any", "any"}, shape{"map[any]int", "map[any]int"}, shape{"map[[2]string]int", "map[[2]string]int"},
 			shape{"chan int", "chan int"}, shape{"func() int", "func() int"})
 	}
 	nf := 2 + r.Intn(4)
 	var fields []rcField
-	var forced []string
 	for i := 0; i < nf; i++ {
 		sh := rng.Pick(r, pool)
 		if strings.HasPrefix(sh.s, "*") && !strings.HasPrefix(sh.t, "*") || strings.HasPrefix(sh.s, "map[string]*") && !strings.HasPrefix(sh.t, "map[string]*") {
